@@ -25,10 +25,12 @@ TRUSTED = ["Coq 8.16.1 kernel + vm_compute + primitive floats",
            "sequence, kind and size of the calls and how their results are used",
            "window contents are identified with stream indices by value (raw rows, 1e-9 relative after undoing the scaler)",
            "harness/c11.py (generators, independent float re-implementation used as direct oracle), harness/coqgen.py"]
-RULE = ("2-5 features, level / variance / correlation shifts sized to raise alarms, window_size in {20,50,100,80,160} (+30, 150, 250 thorough), "
-        "sample_period in {0.05,0.1,0.025,0.2,0.0125,0.7}, both metrics, both scaling modes, ev_threshold in {0.99,0.9,0.7,0.5}, delta in {0.1,0.01,0.005,0.0}; "
-        "streams periodic with period window_size (test window = reference window as a multiset: intersection score must be exactly 0), dyadic-grid data "
-        "(points on histogram edges), out-of-support excursions (winsorising), streams shorter than 2*window_size. "
+RULE = ("2-5 features, level / variance / correlation shifts sized to raise alarms, window_size in {20,50,100,80,160} (+30, 150, 250 thorough) and small windows "
+        "{5,8,10,15,20} whose round(sample_period * window_size) is 0 (scoring period clamped to 1), sample_period in {0.05,0.1,0.025,0.2,0.0125,0.7,0.01}, "
+        "both metrics, both scaling modes, ev_threshold in {0.99,0.9,0.7,0.5}, delta in {0.1,0.01,0.005,0.0}; "
+        "streams periodic with period window_size (test window = reference window as a multiset: intersection score must be >= 0, 0 up to the stated rounding bound, "
+        "and no alarm when delta >= 0.005), dyadic-grid data, out-of-support excursions (winsorising), streams shorter than 2*window_size; the two former "
+        "witnesses (window_size=10: ZeroDivisionError; equal windows scoring -2^-52 and alarming) are the first two cases. "
         "Non-trivial: at least one drift followed by a completed second build; distinct by content.")
 SHARD = 6
 
@@ -344,7 +346,8 @@ def spec_hist(xs, k, lo, hi):
 
 def spec_inter(dr, dt):
     m = [a if a < b else b for a, b in zip(dr, dt)]
-    return 1.0 - np_pairwise_sum(m)
+    x = 1.0 - np_pairwise_sum(m)
+    return x if x > 0.0 else 0.0        # max(0.0, x)
 
 
 def pymax_list(xs):
@@ -390,7 +393,7 @@ class SpecPH:
 
 def spec_params(p):
     w = p["window_size"]
-    return {"step": min(100, py_round_exact(p["sample_period"] * w)), "thr": py_round_exact(0.01 * w), "bins": isqrt_floor(w)}
+    return {"step": max(1, min(100, py_round_exact(p["sample_period"] * w))), "thr": py_round_exact(0.01 * w), "bins": isqrt_floor(w)}
 
 
 def spec_run(case, obs):
@@ -497,7 +500,6 @@ def _is_range_in(starts, idx):
 
 
 GAP = {"n": 0, "nonzero": 0, "negative": 0, "max": 0.0, "alarms": 0}     # rounding gap of the intersection score on identical windows
-STRICT_ZERO = __import__("os").environ.get("C11_STRICT_ZERO") == "1"     # demand exactly 0 / no alarm on identical windows (fails on the unchanged tree)
 
 
 def multiset_periodic(case):
@@ -513,7 +515,7 @@ def direct_check(case, obs):
     msgs = []
     # constructor attributes against exact round-half-even of the double products
     if obs["step"] != sp["step"]:
-        msgs.append(f"step = {obs['step']!r}, but min(100, round(sample_period * window_size)) = {sp['step']} (exact round-half-even of the double product)")
+        msgs.append(f"step = {obs['step']!r}, but max(1, min(100, round(sample_period * window_size))) = {sp['step']} (exact round-half-even of the double product)")
     if obs["ph_threshold"] != sp["thr"]:
         msgs.append(f"ph_threshold = {obs['ph_threshold']!r}, but round(0.01 * window_size) = {sp['thr']}")
     if obs["bins"] != sp["bins"]:
@@ -532,7 +534,7 @@ def direct_check(case, obs):
             if r.get("error") != e.get("error"):
                 return [f"update {i}: implementation raised {r.get('error')}, specification says {e.get('error')}"]
             return [f"update {i}: ZeroDivisionError: step = min(100, round({p['sample_period']} * {w})) = 0, the schedule (total_samples - 1) % step cannot be evaluated"]
-        where = f"PCACD {p} update {i} (total_samples {r['total']})"
+        where = f"PCACD {p} update {i} (total_samples {r.get('total')})"
         for k, nm in (("ds", "drift_state"), ("total", "total_samples"), ("since", "samples_since_reset")):
             if r[k] != e[k]:
                 return [f"{where}: {nm} = {r[k]!r}, specification says {e[k]!r}"]
@@ -553,6 +555,8 @@ def direct_check(case, obs):
         if r["nscores"] is not None:
             if r["nscores"] != e["nscores"]:
                 return [f"{where}: {r['nscores'] - 1} change scores computed so far, the schedule (total-1) % step == 0 says {e['nscores'] - 1}"]
+            if inter and r["nscores"] > 1 and not (r["score"] >= 0.0):
+                return [f"{where}: intersection change score {r['score']!r} is negative (or NaN)"]
             if not feq(r["score"], e["score"]):
                 return [f"{where}: last change score {r['score']!r}, specification (max over components) says {e['score']!r}"]
             if inter and multiset_periodic(case) and r["nscores"] > 1 and (i == 0 or obs["rows"][i - 1]["nscores"] != r["nscores"]):
@@ -564,9 +568,10 @@ def direct_check(case, obs):
                 GAP["max"] = max(GAP["max"], gap)
                 GAP["negative"] += r["score"] < 0
                 GAP["alarms"] += r["ds"] == "drift"
-                if STRICT_ZERO and (gap != 0.0 or r["ds"] == "drift"):
-                    return [f"{where}: the test window equals the reference window (as a multiset of rows) but the intersection change score is {r['score']!r} "
-                            f"and drift_state is {r['ds']!r}"]
+                if r["ds"] == "drift" and case["params"]["delta"] >= 0.005:
+                    # with delta above the rounding noise the cumulative PH sum only decreases: PH difference 0, no alarm
+                    return [f"{where}: the test window equals the reference window (as a multiset of rows), score {r['score']!r}, delta {case['params']['delta']}, "
+                            f"but drift is reported"]
                 if gap > 4 * sp["bins"] * 2.0 ** -53:
                     return [f"{where}: the test window equals the reference window (as a multiset of rows) but the intersection change score is {r['score']!r}, "
                             f"not 0 up to the rounding of the normalisation (bound {4 * sp['bins'] * 2.0 ** -53!r})"]
@@ -674,7 +679,7 @@ def coq_term(case, obs, head="chk_pcacd"):
     if "__exception__" in obs:
         return "false"
     if any("error" in r for r in obs["rows"]):
-        return None      # step = 0: the implementation raises; outside the model (see design note)
+        return "false"   # the implementation raised
     p = case["params"]
     xs, rows, prev = [], [], None
     for r in obs["rows"]:
@@ -704,35 +709,24 @@ def nontrivial(case, obs):
 # ------------------------------------------------------------------ generators
 WINDOWS = [20, 50, 100, 80, 160]
 PERIODS = [0.05, 0.1, 0.025, 0.2, 0.0125, 0.7]
+# before the repair: step = round(0.5) = 0, ZeroDivisionError at update 21
 WITNESS_STEP0 = {"params": {"window_size": 10, "ev_threshold": 0.99, "delta": 0.1, "divergence_metric": "kl", "sample_period": 0.05,
                             "online_scaling": True},
-                 "data": [[float((3 * i) % 7), float((5 * i) % 11)] for i in range(21)], "kind": "witness-step0"}
+                 "data": [[float((3 * i) % 7), float((5 * i) % 11)] for i in range(45)], "kind": "small-window"}
 
 
 def _arith_block(w, a):
     return [[float((a * i) % 17), float((i * i + a) % 23)] for i in range(w)]
 
 
-# identical windows, intersection metric: the score is -2^-52 instead of 0 and Page-Hinkley (threshold 1 * negative mean) alarms at update 201
+# identical windows, intersection metric: before the repair the score was -2^-52 and Page-Hinkley (threshold 1 * negative mean) alarmed at update 201
 WITNESS_EQUAL_WINDOWS_ALARM = {"params": {"window_size": 100, "ev_threshold": 0.99, "delta": 0.1, "divergence_metric": "intersection",
                                           "sample_period": 0.05, "online_scaling": True},
                                "data": [_arith_block(100, 6)[i % 100] for i in range(203)], "kind": "periodic", "periodic": True}
 
 
-def finding_witnesses():
-    """(signature, message, case) of the two recorded discrepancies; rename to `witnesses(ctx)` once known_findings.json lists them"""
-    out = []
-    o = run_impl(WITNESS_STEP0)
-    if any("error" in r for r in o["rows"]):
-        out.append(({"step_zero": True}, "PCACD(window_size=10): ZeroDivisionError at update 21 (step = round(0.5) = 0)", WITNESS_STEP0))
-    o = run_impl(WITNESS_EQUAL_WINDOWS_ALARM)
-    if any(r.get("ds") == "drift" for r in o["rows"]):
-        out.append(({"equal_windows_alarm": True}, "identical windows: intersection score -2.2e-16, drift reported at update 201", WITNESS_EQUAL_WINDOWS_ALARM))
-    return out
-
-
 def step_of(w, sp):
-    return min(100, py_round_exact(sp * w))
+    return max(1, min(100, py_round_exact(sp * w)))
 
 
 def shift_stream(rng, n, dim, w, kind):
@@ -761,11 +755,8 @@ def shift_stream(rng, n, dim, w, kind):
 
 
 def gen_params(ctx, w=None):
-    while True:
-        ww = w or ctx.rng.choice(WINDOWS + ([30, 150, 250] if ctx.thorough else []))
-        sp = ctx.rng.choice(PERIODS)
-        if step_of(ww, sp) >= 1:
-            break
+    ww = w or ctx.rng.choice(WINDOWS + ([30, 150, 250] if ctx.thorough else []))
+    sp = ctx.rng.choice(PERIODS)
     return {"window_size": ww, "ev_threshold": ctx.rng.choice([0.99, 0.99, 0.9, 0.7, 0.5]), "delta": ctx.rng.choice([0.1, 0.01, 0.005, 0.0]),
             "divergence_metric": ctx.rng.choice(["kl", "intersection", "intersection"]), "sample_period": sp,
             "online_scaling": ctx.rng.random() < 0.5}
@@ -777,13 +768,22 @@ def gen_cases(ctx):
     def add(c):
         cases.append(c)
         p = c["params"]
-        for k, v in (("kind", c["kind"]), ("window", p["window_size"]), ("metric", p["divergence_metric"]), ("scaling", p["online_scaling"]),
+        for k, v in (("kind", c["kind"]), ("window", p["window_size"]), ("raw_step_zero", py_round_exact(p["sample_period"] * p["window_size"]) == 0), ("metric", p["divergence_metric"]), ("scaling", p["online_scaling"]),
                      ("step", step_of(p["window_size"], p["sample_period"])), ("threshold", py_round_exact(0.01 * p["window_size"])),
                      ("features", len(c["data"][0]))):
             st.setdefault(k, {})
             st[k][str(v)] = st[k].get(str(v), 0) + 1
-    # every window size x both metrics x both scaling modes at least once, shift kinds rotating
+    # the two former witnesses (step formerly 0; equal windows formerly scoring -2^-52 and alarming) come first
+    add(dict(WITNESS_STEP0))
+    add(dict(WITNESS_EQUAL_WINDOWS_ALARM))
     kinds = ["level", "variance", "correlation", "mixed"]
+    # small windows whose round(sample_period * window_size) is 0: the scoring period is clamped to 1
+    for _ in range(ctx.scale(8, 80)):
+        w = ctx.rng.choice([5, 8, 10, 15, 20])
+        sp = ctx.rng.choice([0.05, 0.025, 0.0125, 0.01] if w < 20 else [0.025, 0.0125])
+        p = dict(gen_params(ctx, w), sample_period=sp)
+        add({"params": p, "data": shift_stream(ctx.rng, ctx.rng.randint(4 * w, 12 * w), ctx.rng.randint(2, 4), w, ctx.rng.choice(kinds)), "kind": "small-window"})
+    # every window size x both metrics x both scaling modes at least once, shift kinds rotating
     k = 0
     for w in WINDOWS + ([30, 150, 250] if ctx.thorough else []):
         for metric in ("intersection", "kl"):
@@ -801,7 +801,6 @@ def gen_cases(ctx):
         kind = ctx.rng.choice(kinds)
         add({"params": p, "data": shift_stream(ctx.rng, n, ctx.rng.randint(2, 5), w, kind), "kind": kind})
     # test window = reference window: stream periodic with period window_size
-    add(dict(WITNESS_EQUAL_WINDOWS_ALARM))
     for a, w, scaling in ((7, 100, True), (20, 160, False)) if not ctx.thorough else [(a, w, sc) for a in range(1, 12) for w in (100, 160) for sc in (True, False)]:
         blk = _arith_block(w, a)
         add({"params": dict(WITNESS_EQUAL_WINDOWS_ALARM["params"], window_size=w, online_scaling=scaling),
@@ -841,19 +840,8 @@ def intensify(case):
     yield dict(case, params=dict(p, divergence_metric="kl" if p["divergence_metric"] == "intersection" else "intersection"))
 
 
-def signature(case, obs, msgs):
-    p = case["params"]
-    return {"step_zero": step_of(p["window_size"], p["sample_period"]) == 0,
-            "zero_division": any("ZeroDivisionError" in m for m in msgs),
-            "equal_windows_alarm": bool(case.get("periodic")) and p["divergence_metric"] == "intersection"
-                                   and any(r.get("ds") == "drift" for r in obs.get("rows", []))}
-
 
 def extra(ctx):
     return {"equal_windows_intersection_scores": GAP["n"], "of_which_not_exactly_zero": GAP["nonzero"], "of_which_negative": GAP["negative"],
-            "max_abs_score_on_equal_windows": GAP["max"], "stated_bound": "4 * bins * 2^-53",
-            "drifts_reported_on_equal_windows": GAP["alarms"],
-            "finding_equal_windows_alarm": "identical windows can score -2^-52 (rounding of the normalisation) and then Page-Hinkley alarms at the first check when "
-                                           "ph_threshold >= 1 (threshold * negative mean < 0 = PH difference); witness WITNESS_EQUAL_WINDOWS_ALARM, see notes/design_C11.md",
-            "finding_step_zero": "PCACD(window_size=10) (any round(sample_period*window_size) == 0) raises ZeroDivisionError at update 2*window_size+1; "
-                                 "excluded from the generators, witness WITNESS_STEP0 in harness/c11.py, see notes/design_C11.md"}
+            "max_abs_score_on_equal_windows": GAP["max"], "stated_bound": "0 <= score <= 4 * bins * 2^-53",
+            "drifts_reported_on_equal_windows": GAP["alarms"]}
